@@ -372,13 +372,10 @@ Proof.
   - destruct (todo s) as [|[t|] rest] eqn:T.
     + (* close *)
       destruct (closed s) eqn:C; [discriminate|]. inversion H; subst s'; clear H.
-      destruct HI. constructor; flds; auto.
-      * discriminate.
-      * discriminate.
+      destruct HI. constructor; flds; auto; try discriminate.
       * split; [split; auto | auto].
       * intros [H|H]; discriminate.
       * intros X. destruct (i_ex X). congruence.
-      * discriminate.
     + eapply inv_push; eauto.
     + destruct (items s) eqn:EI; inversion H; subst s'; clear H; [|auto].
       destruct HI. constructor; flds; auto.
